@@ -171,10 +171,15 @@ pub struct RunOpts {
     pub write_cap: usize,
     /// the client waits for every owed reply before it sends the next command
     pub lockstep: bool,
+    /// every K-th command (0: none) arrives in two reads: its 4-byte header, then the rest
+    pub cut_every: usize,
+    /// the shim answers with resultsets of varying shape (text and binary rows, an occasional
+    /// 5000-byte row, chained sets) instead of bare completions
+    pub rich: bool,
 }
 impl Default for RunOpts {
     fn default() -> Self {
-        RunOpts { seq_stride: 0, uniform_read: usize::MAX, write_cap: usize::MAX, lockstep: false }
+        RunOpts { seq_stride: 0, uniform_read: usize::MAX, write_cap: usize::MAX, lockstep: false, cut_every: 0, rich: false }
     }
 }
 
@@ -224,14 +229,15 @@ pub fn run_payloads_opts(payloads: &[Vec<u8>], ignores: &[u8], opts: &RunOpts, s
     let conv = Conv::new(cmds);
     let s = conv.stream();
     let stream = Arc::new(s.bytes);
-    let mut sim = sim_for(&stream, vec![]);
+    let cuts: Vec<usize> = if opts.cut_every == 0 { vec![] } else { (0..n_cmds).filter(|k| k % opts.cut_every == opts.cut_every - 1).map(|k| s.ends[k] + 4).collect() };
+    let mut sim = sim_for(&stream, cuts);
     sim.log_ops = false;
     sim.uniform_read = opts.uniform_read;
     sim.write_cap = opts.write_cap;
     if opts.lockstep && fatal_at.is_none() {
         lockstep(&mut sim, &conv);
     }
-    let mut cfg = ConnCfg::new(std_behave());
+    let mut cfg = ConnCfg::new(if opts.rich { super::soak::soak_behave() } else { std_behave() });
     cfg.skip_iter = skip_iter;
     let o = run_conn(sim, cfg);
     st.transitions += n_cmds as u64;
